@@ -256,6 +256,9 @@ type pathCtx struct {
 	steps     int64
 	notes     []string
 	lastPanicSite string
+	// model is a satisfying assignment of the current pc (nil if unknown): lets branch()
+	// decide one side of a condition by evaluation instead of a solver query.
+	model map[string]interface{}
 	lastPanicStack string
 	// native handles (regexp etc.) keyed by identity of interpreter pointers
 	natives map[*value]interface{}
@@ -269,6 +272,54 @@ func (c *pathCtx) addPC(t *Term) {
 	}
 	c.pc = append(c.pc, t)
 	c.solver().Assert(t)
+	if c.model != nil {
+		if b, ok := c.evalBool(t); !ok || !b {
+			c.model = nil
+		}
+	}
+}
+
+func (c *pathCtx) evalBool(t *Term) (res bool, ok bool) {
+	defer func() {
+		if r := recover(); r != nil {
+			ok = false
+		}
+	}()
+	b, isb := t.eval(c.model).(bool)
+	return b, isb
+}
+
+// fetchModel reads a model after a "sat" answer while the query's assertions are still pushed.
+func (c *pathCtx) fetchModel() map[string]interface{} {
+	names := make([]string, len(c.syms))
+	sorts := make([]Sort, len(c.syms))
+	for i, d := range c.syms {
+		names[i] = d.Name
+		sorts[i] = d.Sort
+	}
+	return c.solver().Model(names, sorts)
+}
+
+// checkSatModel: like checkSat, but on "sat" also returns a model.
+func (c *pathCtx) checkSatModel(extra ...*Term) (string, map[string]interface{}) {
+	s := c.solver()
+	s.Push()
+	defer s.Pop()
+	for _, e := range extra {
+		s.Assert(e)
+	}
+	r := s.Check()
+	if r == "unknown" {
+		msg := "solver answered unknown"
+		if n := len(s.Errors); n > 0 {
+			msg = "solver error: " + s.Errors[n-1]
+		}
+		panic(engineAbort{"SOLVER", msg})
+	}
+	if r == "sat" {
+		return r, c.fetchModel()
+	}
+	return r, nil
 }
 
 func (c *pathCtx) newSym(label string, sort Sort, kind string) *symDecl {
@@ -325,16 +376,45 @@ func (c *pathCtx) branch(cond *Term) bool {
 		return false
 	}
 	ncond := mkNot(cond)
-	if c.checkSat(cond) == "sat" {
+	fork := func() {
+		alt := make([]uint8, len(c.decisions)+1)
+		copy(alt, c.decisions)
+		alt[len(c.decisions)] = 0
+		c.ex.push(alt)
+		c.w.stats.Forks++
+	}
+	if c.model != nil {
+		if b, ok := c.evalBool(cond); ok {
+			if b {
+				// true side is feasible by the cached model; ask only about the false side
+				if c.checkSat(ncond) == "sat" {
+					fork()
+				}
+				c.record(1)
+				c.addPC(cond)
+				return true
+			}
+			// false side feasible by the cached model
+			r, m := c.checkSatModel(cond)
+			if r == "sat" {
+				fork()
+				c.record(1)
+				c.model = m
+				c.addPC(cond)
+				return true
+			}
+			c.record(0)
+			c.addPC(ncond)
+			return false
+		}
+	}
+	r, m := c.checkSatModel(cond)
+	if r == "sat" {
 		if c.checkSat(ncond) == "sat" {
-			// fork: schedule the false side
-			alt := make([]uint8, len(c.decisions)+1)
-			copy(alt, c.decisions)
-			alt[len(c.decisions)] = 0
-			c.ex.push(alt)
-			c.w.stats.Forks++
+			fork()
 		}
 		c.record(1)
+		c.model = m
 		c.addPC(cond)
 		return true
 	}
@@ -361,8 +441,16 @@ func (c *pathCtx) assume(cond *Term) {
 		c.addPC(cond)
 		return
 	}
-	if c.checkSat(cond) == "sat" {
+	if c.model != nil {
+		if b, ok := c.evalBool(cond); ok && b {
+			c.record(1)
+			c.addPC(cond)
+			return
+		}
+	}
+	if r, m := c.checkSatModel(cond); r == "sat" {
 		c.record(1)
+		c.model = m
 		c.addPC(cond)
 		return
 	}
